@@ -98,10 +98,10 @@ PROPS = {
     },
     "C02": {
         "engine": "fmt",
-        "level_text": "Lean 4 theorems C02.unsigned_roundtrip / signed_roundtrip / canonical / integers_exact / timer_millis / timer_overflow / histogram_nanos / histogram_overflow / duration_lists / packed_keeps_length_and_order / float_text_passthrough. Integers, durations, lists: whole range. PARTIAL for 'all finite f64': cadence passes std's text through unchanged (proved); that std's text parses back bit-identically is checked for every sampled float by the harness, not proved.",
+        "level_text": "Lean 4 theorems C02.unsigned_roundtrip / signed_roundtrip / canonical / integers_exact / timer_millis / timer_overflow / histogram_nanos / histogram_overflow / duration_lists / packed_keeps_length_and_order / float_text_passthrough. Integers, durations, lists: whole range. PARTIAL for 'all finite f64': cadence passes std's text through unchanged (proved); that the numeral on the wire lies in the round-to-nearest-even interval of the supplied bits is decided exactly (integer arithmetic, Check/Float.lean `RoundTrips`) for every sampled float value and sampling rate, but not proved for all doubles (that is std's shortest-round-trip printing).",
         "level_note": _FMT_NOTE + "; std's shortest-round-trip float printing is trusted (partial clause)",
         "technique": "Lean 4 proof (numeral round trips, conversion arithmetic) + model/implementation correspondence on boundary values",
-        "trusted_base": _FMT_TB + ["std's f64 Display prints a decimal that parses back to the same bits (checked per sampled float only)"],
+        "trusted_base": _FMT_TB + ["std's f64 Display prints a decimal that parses back to the same bits: decided exactly per sampled float by RoundTrips, trusted for the unsampled ones"],
         "assumptions": [STD_DISPLAY],
         "rule": _FMT_RULE,
         "exhaustive_part": "as C01; Duration boundaries (+-1 ns around both overflow limits) are always included",
